@@ -40,6 +40,10 @@ def gen_cases(tier, seed):
     # ... with a or b a multiple of the group order (bP or aP is the identity)
     for a, b in [(0, 5), (5, 0), (N, 7), (7, N), (2 * N, 3), (0, 0), (N, N), (N - 1, 1), (1, N - 1)]:
         yield "identities", {"a": hex(a), "b": hex(b), "base": hex(rng.randrange(1, N))}
+    # several multiplications / additions in flight at once (signers and verifiers run in threads): a result must not depend on what
+    # another thread is computing
+    for i in range(2 if q else 12):
+        yield "threads", {"salt": rng.getrandbits(32), "n": 4}
     # the command line as an entry point for private keys: text that is not the hex / bin text of 32 bytes in [1, n-1] is refused
     for i in range(4 if q else 40):
         yield "cli_privkey_text", {"k": hex(rng.randrange(1, N)), "salt": rng.getrandbits(32)}
@@ -72,7 +76,7 @@ def gen_cases(tier, seed):
 
 
 def required(tier):
-    return {"scalar.decided": 40, "cli.privkey_text_bad": 50, "scalar.base_identity": 8, "add.decided": 30, "add.rel.neg": 3, "add.rel.same": 3, "add.rel.same_y": 3, "add.rel.same_object": 3, "identities.decided": 20,
+    return {"scalar.decided": 40, "threads.results": 6, "cli.privkey_text_bad": 50, "scalar.base_identity": 8, "add.decided": 30, "add.rel.neg": 3, "add.rel.same": 3, "add.rel.same_y": 3, "add.rel.same_object": 3, "identities.decided": 20,
             "pubkey.decided": 30, "privkey.refused": 150, "privkey.refused_after_valid_use": 100, "keygen.decided": 10, "keygen.draw0": 1,
             "small.pairs": 5000, "small.scalars": 5000, "small.assoc": 20000,
             "contract:point_add.closed": 10000, "contract:point_scalar_mul.closed": 1000}
@@ -106,6 +110,18 @@ def run_case(kind, params, ctx):
         ctx.nontrivial()
         if got != exp:
             ctx.violation(f"scalar-mul/wrong/{_kclass(k)}", f"point_scalar_mul({k:#x}, {base:#x}G) = {got}, reference {exp}")
+        if base == 1:
+            # every other public route to k*G must agree (bip32.point is one; bip32.N for a key/chain-code pair)
+            import bits.bips.bip32 as b32_
+            try:
+                g2 = b32_.point(k)
+                ctx.count("scalar.other_routes")
+                if g2 != exp:
+                    ctx.violation(f"scalar-mul/wrong/bip32.point/{_kclass(k)}", f"bip32.point({k:#x}) = {g2}, reference {exp}")
+            except ContractViolation:
+                raise
+            except Exception as e:
+                ctx.violation(f"scalar-mul/raises/bip32.point/{_kclass(k)}", f"bip32.point({k:#x}) raised {type(e).__name__}: {e}")
         return
     if kind == "add":
         a, b = int(params["a"], 16), int(params["b"], 16)
@@ -172,6 +188,38 @@ def run_case(kind, params, ctx):
         if abP != a_bP:
             ctx.violation("identity/associative-scalar", f"a(bP) != (ab)P for a={a:#x} b={b:#x}")
         return
+    if kind == "threads":
+        import sys as _sys
+        import threading
+        trng = rng_for("C03t", params["salt"])
+        jobs = [(trng.getrandbits(256), trng.randrange(1, N)) for _ in range(params["n"])]
+        exp = [S.mul(k, secp.pub(b)) for k, b in jobs]
+        exp_add = [S.add(secp.pub(b), secp.pub(k % N or 1)) for k, b in jobs]
+        out = {}
+
+        def work(i):
+            k, b = jobs[i]
+            try:
+                out[i] = (em.point_scalar_mul(k, secp.pub(b)), em.point_add(secp.pub(b), secp.pub(k % N or 1)), em.point_scalar_mul(k, secp.pub(b)))
+            except ContractViolation as cv:
+                out[i] = ("contract", cv.key, cv.detail)
+            except Exception as e:
+                out[i] = ("raised", f"{type(e).__name__}: {e}", None)
+        old = _sys.getswitchinterval()
+        _sys.setswitchinterval(1e-5)
+        try:
+            ts = [threading.Thread(target=work, args=(i,)) for i in range(len(jobs))]
+            [t.start() for t in ts]
+            [t.join(300) for t in ts]
+        finally:
+            _sys.setswitchinterval(old)
+        ctx.count("threads.runs")
+        ctx.nontrivial()
+        for i in range(len(jobs)):
+            ctx.count("threads.results")
+            if out.get(i) != (exp[i], exp_add[i], exp[i]):
+                ctx.violation("concurrent/result-wrong", f"{len(jobs)} threads multiplying different points at once: thread {i} got {str(out.get(i))[:160]} (the single-threaded result is correct)")
+        return
     if kind == "cli_privkey_text":
         from . import clihelp
         k = int(params["k"], 16)
@@ -181,6 +229,10 @@ def run_case(kind, params, ctx):
         ctx.count("cli.privkey_text")
         if not r["ok"] or clihelp.parse_out(r["out"], "hex") != exp:
             ctx.violation("cli/pubkey-of-valid-key-wrong", f"bits pubkey -X of {t} printed {r['out'][:70]!r} (ret {r['ret']!r})")
+        for form, tt in (("upper", t.upper()), ("mixed", "".join(ch.upper() if i % 3 == 0 else ch for i, ch in enumerate(t)))):
+            ru = clihelp.run(["pubkey", "-X", "-1x", "-0x"], tt.encode())
+            if not ru["ok"] or clihelp.parse_out(ru["out"], "hex") != exp:
+                ctx.violation(f"cli/pubkey-of-valid-key-wrong/{form}-case-hex", f"bits pubkey -X of {tt} printed {ru['out'][:70]!r} (ret {ru['ret']!r})")
         # the same number of characters, but not 64 hex digits: integer-literal syntax, signs, separators, prefixes
         bad = [("0x-prefix", "0x" + t[2:]), ("0X-prefix", "0X" + t[2:]), ("plus-sign", "+" + t[1:]), ("minus-sign", "-" + t[1:]), ("underscore", t[:8] + "_" + t[9:]),
                ("non-hex-letter", t[:5] + "g" + t[6:]), ("0x-prefix-66", "0x" + t), ("hash-prefix", "#" + t[1:]), ("h-suffix", t[:-1] + "h"),
@@ -190,8 +242,7 @@ def run_case(kind, params, ctx):
                 rr = clihelp.run(["pubkey", "-X", "-1x", "-0x"], (txt + ("\n" if arg == "with-newline" else "")).encode())
                 ctx.count("cli.privkey_text_bad")
                 ctx.seen("clipt", (txt, arg))
-                if rr["ok"] and rr["out"].strip():
-                    ctx.violation(f"cli/privkey-text-accepted/{cls}", f"bits pubkey (hex input {txt!r}) printed {rr['out'][:70]!r}")
+                clihelp.judge_invalid(ctx, rr, f"cli/privkey-text-accepted/{cls}", f"bits pubkey (hex input {txt!r})")
         ctx.nontrivial()
         return
     if kind == "pubkey":
